@@ -19,6 +19,14 @@ abbrev Nonce := Nat
 abbrev Child := String
 abbrev CK := Child × Key
 
+instance (priority := low) instDecEqExcept {ε α} [DecidableEq ε] [DecidableEq α] :
+    DecidableEq (Except ε α)
+  | .ok a, .ok b => if h : a = b then isTrue (by rw [h]) else isFalse (by intro e; cases e; exact h rfl)
+  | .error a, .error b =>
+    if h : a = b then isTrue (by rw [h]) else isFalse (by intro e; cases e; exact h rfl)
+  | .ok _, .error _ => isFalse (by intro e; cases e)
+  | .error _, .ok _ => isFalse (by intro e; cases e)
+
 /-! ### association lists -/
 
 def aget {κ β} [DecidableEq κ] : List (κ × β) → κ → Option β
